@@ -1,8 +1,8 @@
 (* Property C04: every failure is a language-level exception, never a host-runtime crash
    ONLY statements: each theorem is closed by `exact` of a lemma proved elsewhere and followed by Print Assumptions. *)
-From Coq Require Import ZArith NArith List Bool Lia Permutation FMapPositive.
+From Coq Require Import ZArith NArith List Bool Lia Permutation FMapPositive String.
 Import ListNotations.
-Require Import Base Strings Builtins Interp Machine Events Progress Num NumProofs Lex ParseProofs LinkKinds LinkErr.
+Require Import Base Strings Builtins Interp Machine Events Progress Num NumProofs Lex ParseProofs LinkKinds LinkExcept LinkErr.
 
 Theorem never_stuck fuel prog stdin k :
   fst (run_main fuel prog stdin) <> OStuck k.
@@ -32,6 +32,12 @@ Theorem arity_checks_audited  :
   GenKinds.gen_arity_checks = audited_arity_checks.
 Proof. exact (LinkKinds.arity_checks_audited ). Qed.
 Print Assumptions arity_checks_audited.
+
+(* and every except clause of the evaluator, the parser, the built-ins and the modules - which host exceptions each guarded call may raise and what they are turned into - REGENERATED and compared with the reviewed list: a narrowed, widened, new or removed clause breaks it *)
+Theorem except_clauses_audited  :
+  GenKinds.gen_except_clauses = audited_except_clauses.
+Proof. exact (LinkExcept.except_clauses_audited ). Qed.
+Print Assumptions except_clauses_audited.
 
 Theorem strict_is_the_source_union v :
   in_union GenKinds.gen_StrictValue v = negb (is_delayed v).
